@@ -36,6 +36,8 @@ struct TxRec {
     int64_t offered_at_start[2] = {0, 0}; // bytes offered to each direction when the tx first appeared
     int64_t last_msglen[2] = {0, 0};
     bool decomp_restart_lost_input = false;   // a decompressor restart happened after input of earlier calls had been consumed
+    long decomp_restart_prior = 0;            // ... and how many body bytes of this message earlier calls had handed over (the library keeps back the first 13 for exactly this case)
+    long msglen_at_call_end[2] = {0, 0};      // message length (body bytes seen on the wire) when the last data call for that side returned
     int max_layers = 0;              // longest decompressor chain seen while body data was delivered
     bool cb_nonok_any = false;       // some scripted callback for this transaction returned STOP / ERROR (any hook)
     std::string lenient_site[2];     // lenient-parsing call site (guarded probe) that delivered data for this side, if any
@@ -82,6 +84,11 @@ struct Stats {
     uint64_t disposals = 0, tx_freed = 0, retries = 0;
     uint64_t zero_len_calls = 0, reopen = 0;
 };
+
+// the best-fit map the C15 plans install (public setter) when %u decoding is on, so that the reference rule knows it: triplets
+// (high byte, low byte, replacement), terminated by 0,0,0; code points not listed give SIM_BESTFIT_DEFAULT
+static const unsigned char SIM_BESTFIT[] = {0x01, 0x41, 'X', 0xff, 0x21, '!', 0xab, 0x10, 'Z', 0x1f, 0xff, 'Y', 0x12, 0x34, 0x00, 0, 0, 0};
+static const int SIM_BESTFIT_DEFAULT = '#';
 
 struct RunResult {
     std::deque<TxRec> txs;           // deque: references stay valid while records are appended
